@@ -3,9 +3,9 @@ package main
 import (
 	"context"
 	"fmt"
-	"io"
 	"net"
 	"sync"
+	"sync/atomic"
 	"time"
 
 	"github.com/andydunstall/piko/pkg/auth"
@@ -30,6 +30,38 @@ type gate struct {
 	mu     sync.Mutex
 	open   bool
 	conns  map[net.Conn]struct{}
+	// blackhole: bytes in both directions are silently discarded and no close
+	// is passed on: the network between the two sides has gone dark, neither
+	// side gets a FIN or RST
+	blackhole atomic.Bool
+	held      []net.Conn
+}
+
+// pump copies src to dst; while the gate is a black hole it swallows the data
+// and keeps both sockets open whatever happens.
+func (g *gate) pump(dst, src net.Conn, done chan<- struct{}) {
+	defer func() { done <- struct{}{} }()
+	buf := make([]byte, 32*1024)
+	for {
+		n, err := src.Read(buf)
+		if g.blackhole.Load() {
+			if err != nil {
+				return
+			}
+			continue
+		}
+		if n > 0 {
+			if _, werr := dst.Write(buf[:n]); werr != nil {
+				return
+			}
+		}
+		if err != nil {
+			if !g.blackhole.Load() {
+				dst.Close()
+			}
+			return
+		}
+	}
 }
 
 func newGate(target string) *gate {
@@ -56,7 +88,9 @@ func newGate(target string) *gate {
 			}
 			go func() {
 				defer func() {
-					c.Close()
+					if !g.blackhole.Load() {
+						c.Close()
+					}
 					g.mu.Lock()
 					delete(g.conns, c)
 					g.mu.Unlock()
@@ -66,10 +100,18 @@ func newGate(target string) *gate {
 					return
 				}
 				done := make(chan struct{}, 2)
-				go func() { _, _ = io.Copy(u, c); u.Close(); done <- struct{}{} }()
-				go func() { _, _ = io.Copy(c, u); c.Close(); done <- struct{}{} }()
+				go g.pump(u, c, done)
+				go g.pump(c, u, done)
 				<-done
 				<-done
+				if g.blackhole.Load() {
+					// keep the server-side socket open: nobody tells the server
+					g.mu.Lock()
+					g.held = append(g.held, u)
+					g.mu.Unlock()
+					return
+				}
+				u.Close()
 			}()
 		}
 	}()
@@ -179,6 +221,50 @@ func runC16Reconnect(c c16Reconnect) (sig, msg string) {
 		case <-time.After(10 * time.Second):
 			return "accept-never-returned", desc + ": Accept did not return after the listener was closed"
 		}
+	}
+	return "", ""
+}
+
+// runC16SilentDrop: two upstream connections, the network to one of them goes
+// dark (no FIN, no RST, nothing arrives any more). The server has to notice by
+// itself and deregister it; the healthy one stays.
+func runC16SilentDrop() (sig, msg string) {
+	nd, err := e4.StartNode(nil, nil)
+	if err != nil {
+		evid.Fatal("start node: %v", err)
+	}
+	defer nd.Stop()
+	g := newGate(nd.UpstreamAddr())
+	defer func() {
+		g.ln.Close()
+		g.mu.Lock()
+		for _, c := range g.held {
+			c.Close()
+		}
+		g.mu.Unlock()
+	}()
+	dark, err := dialRaw(g.ln.Addr().String(), "e1", "dark", "")
+	if err != nil {
+		return "connect-failed", err.Error()
+	}
+	defer dark.sess.Close()
+	healthy, err := dialRaw(nd.UpstreamAddr(), "e1", "healthy", "")
+	if err != nil {
+		return "connect-failed", err.Error()
+	}
+	defer healthy.sess.Close()
+	if !e4.WaitFor(15*time.Second, func() bool { return nd.State().LocalNode().Endpoints["e1"] == 2 }) {
+		return "not-registered-while-connected", fmt.Sprintf("two upstreams connected, node has %v", nd.State().LocalNode().Endpoints)
+	}
+	g.blackhole.Store(true)
+	t0 := time.Now()
+	if !e4.WaitFor(100*time.Second, func() bool {
+		return nd.State().LocalNode().Endpoints["e1"] == 1 && nd.Srv.VUpstreamServer().VOpenSessions() == 1
+	}) {
+		return "silently-dropped-connection-kept", fmt.Sprintf("the network to one of two upstreams went dark %s ago (no FIN/RST): the node still has endpoints %v and %d open sessions", time.Since(t0).Round(time.Second), nd.State().LocalNode().Endpoints, nd.Srv.VUpstreamServer().VOpenSessions())
+	}
+	if r := e4.DoHTTP(nd.ProxyAddr(), e4.Addressing{Mode: "header", Endpoint: "e1"}); r.Status != 200 || r.Upstream != "healthy" {
+		return "remaining-upstream-unreachable", fmt.Sprintf("after the dark connection was dropped a request -> %s", r)
 	}
 	return "", ""
 }
